@@ -12,7 +12,7 @@ CFG = dict(
           "run lock-step against the real goat.Proxy on every run.",
     props="Props/C16.v",
     theorems=["C16_accounting", "C16_route", "C16_drop_only_when_full", "C16_no_loss", "C16_source_order", "C16_pair_order",
-              "C16_dial_once", "C16_complete_means_complete_refuted"],
+              "C16_dial_once", "C16_redial", "C16_complete_means_complete_refuted"],
     imports=["Model.Proxy", "Check.C16c"],
     case_type="pxcase",
     find_bad_from="find_bad_from",
@@ -30,7 +30,7 @@ CFG = dict(
          "model over all orders of its internal rules: ALL words of <= 3 (thorough 4) envelopes from 2 attached peers to attached / dialable / "
          "unknown / slow-to-dial names, ALL words of <= 2 from 3 peers under the prefix-strip rewrite, ALL interleavings of <= 6 envelopes from "
          "<= 3 peers (5 plans; sequential and with concurrent senders), bursts of 12/16/17/18/40 to a destination whose writer is blocked / "
-         "whose dial is slow / free, from 1 or 2 sources, 6 interceptors (identity, constant, prefix strip, reject destination, reject "
+         "whose dial is slow / free, from 1 or 2 sources, dial on demand followed by the failure of the dialled connection (read, write, blocked write, dial error) and more traffic for the name (must dial again), 6 interceptors (identity, constant, prefix strip, reject destination, reject "
          "source, none) x return routes (nil, empty, 1 hop, 2 hops, to dialable, to unknown) x route records, seeded random walks with and "
          "without faults; the buffer size is measured on the running code; end-to-end: 1..8 real clients - real Proxy - real Demux keyed by "
          "source - 1..4 real Servers (pre-attached / dialled on demand, 3 rewrites), unary + bidi + client-stream + server-stream RPCs with <= 12 "
